@@ -134,8 +134,12 @@ func newCTCP() *CTCP {
 // call executes the necessary CTCP handler for the incoming event/CTCP
 // command.
 func (c *CTCP) call(client *Client, event *CTCPEvent) {
+	// Handlers may add or remove CTCP handlers themselves, so don't hold the
+	// mutex while they run.
 	c.mu.RLock()
-	defer c.mu.RUnlock()
+	wildcard := c.handlers["*"]
+	handler, ok := c.handlers[event.Command]
+	c.mu.RUnlock()
 
 	// If they want to catch any panics, add to defer stack.
 	if client.Config.RecoverFunc != nil && event.Origin != nil {
@@ -144,11 +148,11 @@ func (c *CTCP) call(client *Client, event *CTCPEvent) {
 
 	// Support wildcard CTCP event handling. Gets executed first before
 	// regular event handlers.
-	if _, ok := c.handlers["*"]; ok {
-		c.handlers["*"](client, *event)
+	if wildcard != nil {
+		wildcard(client, *event)
 	}
 
-	if _, ok := c.handlers[event.Command]; !ok {
+	if !ok {
 		// If ACTION, don't do anything.
 		if event.Command == CTCP_ACTION {
 			return
@@ -161,7 +165,7 @@ func (c *CTCP) call(client *Client, event *CTCPEvent) {
 		return
 	}
 
-	c.handlers[event.Command](client, *event)
+	handler(client, *event)
 }
 
 // parseCMD parses a CTCP command/tag, ensuring it's valid. If not, an empty
